@@ -238,21 +238,21 @@ type Chain struct {
 	// validator index -> key index (deposit order may differ from key order)
 	KeyOf map[[48]byte]int
 	// bookkeeping for scenario builders
-	NextKey      int
-	BlockNumber  uint64
-	voteEth1     *refspec.Eth1Data
-	votePeriod   uint64
-	includedAtt  map[[2]uint64]bool // (slot, committee index) already included
-	seenAttData  []refspec.Attestation
+	NextKey     int
+	BlockNumber uint64
+	voteEth1    *refspec.Eth1Data
+	votePeriod  uint64
+	includedAtt map[[2]uint64]bool // (slot, committee index) already included
+	seenAttData []refspec.Attestation
 	// MergeAtSlot: bellatrix blocks before this slot carry the default payload (the merge transition has not happened yet)
 	MergeAtSlot uint64
 }
 
 type GenesisOpts struct {
-	Validators   int
-	Eth1Creds    func(i int) bool // validators starting with 0x01 credentials
-	Balance      func(i int) uint64
-	GenesisTime  uint64
+	Validators  int
+	Eth1Creds   func(i int) bool // validators starting with 0x01 credentials
+	Balance     func(i int) uint64
+	GenesisTime uint64
 }
 
 // NewChain builds a genesis on the reference spec (through real, signed deposits), loads the same
